@@ -6,6 +6,7 @@ package chainlib
 
 import (
 	"bytes"
+	"errors"
 	"encoding/binary"
 	"fmt"
 	"math/big"
@@ -33,25 +34,85 @@ type Rec struct {
 }
 
 // RecDB wraps a MemDatabase and logs every Put / Delete / Batch.Write in order.
+// Failure injection (C04): when FailAt = n > 0, the n-th write record (1-based,
+// counted from the moment FailAt was set; direct writes and batch flushes each
+// count as one) is NOT applied and NOT logged and returns ErrInjected; every
+// later write fails too when FailAfter is set (a dead disk), otherwise they succeed.
 type RecDB struct {
-	Inner *aquadb.MemDatabase
-	mu    sync.Mutex
-	Log   []Rec
+	Inner     *aquadb.MemDatabase
+	mu        sync.Mutex
+	Log       []Rec
+	FailAt    int
+	FailAfter bool
+	nwrites   int
+	Failed    int // number of writes that were made to fail
 }
+
+var ErrInjected = errors.New("injected write failure")
 
 func NewRecDB() *RecDB { return &RecDB{Inner: aquadb.NewMemDatabase()} }
 
-func (d *RecDB) Put(k, v []byte) error {
+// admit decides (under the lock) whether the next write record goes through.
+func (d *RecDB) admit(r Rec) bool {
 	d.mu.Lock()
-	d.Log = append(d.Log, Rec{false, []KV{{false, common.CopyBytes(k), common.CopyBytes(v)}}})
+	defer d.mu.Unlock()
+	d.nwrites++
+	if d.FailAt > 0 && (d.nwrites == d.FailAt || (d.FailAfter && d.nwrites > d.FailAt)) {
+		d.Failed++
+		return false
+	}
+	d.Log = append(d.Log, r)
+	return true
+}
+
+// SetFailAt arms the injector: the n-th write from now fails.
+func (d *RecDB) SetFailAt(n int, dead bool) {
+	d.mu.Lock()
+	d.FailAt, d.FailAfter, d.nwrites, d.Failed = n, dead, 0, 0
 	d.mu.Unlock()
+}
+
+func (d *RecDB) Put(k, v []byte) error {
+	if !d.admit(Rec{false, []KV{{false, common.CopyBytes(k), common.CopyBytes(v)}}}) {
+		return ErrInjected
+	}
 	return d.Inner.Put(k, v)
 }
 func (d *RecDB) Delete(k []byte) error {
-	d.mu.Lock()
-	d.Log = append(d.Log, Rec{false, []KV{{true, common.CopyBytes(k), nil}}})
-	d.mu.Unlock()
+	if !d.admit(Rec{false, []KV{{true, common.CopyBytes(k), nil}}}) {
+		return ErrInjected
+	}
 	return d.Inner.Delete(k)
+}
+
+// Snapshot copies the current content of the database.
+func (d *RecDB) Snapshot() map[string][]byte {
+	m := map[string][]byte{}
+	for _, k := range d.Inner.Keys() {
+		v, _ := d.Inner.Get(k)
+		m[string(k)] = common.CopyBytes(v)
+	}
+	return m
+}
+
+// Materialise builds a fresh recording database holding base + the given
+// records applied in order (batches atomically): the disk a crash after
+// exactly these writes leaves behind.
+func Materialise(base map[string][]byte, recs []Rec) *RecDB {
+	d := NewRecDB()
+	for k, v := range base {
+		d.Inner.Put([]byte(k), v)
+	}
+	for _, r := range recs {
+		for _, o := range r.Ops {
+			if o.Del {
+				d.Inner.Delete(o.Key)
+			} else {
+				d.Inner.Put(o.Key, o.Val)
+			}
+		}
+	}
+	return d
 }
 func (d *RecDB) Get(k []byte) ([]byte, error) { return d.Inner.Get(k) }
 func (d *RecDB) Has(k []byte) (bool, error)   { return d.Inner.Has(k) }
@@ -86,9 +147,15 @@ func (b *recBatch) Delete(k []byte) error {
 func (b *recBatch) ValueSize() int { return b.size }
 func (b *recBatch) Reset()         { b.ops = b.ops[:0]; b.size = 0 }
 func (b *recBatch) Write() error {
-	b.db.mu.Lock()
-	b.db.Log = append(b.db.Log, Rec{true, append([]KV(nil), b.ops...)})
-	b.db.mu.Unlock()
+	if len(b.ops) > 0 || b.db.FailAt > 0 {
+		if !b.db.admit(Rec{true, append([]KV(nil), b.ops...)}) {
+			return ErrInjected
+		}
+	} else {
+		b.db.mu.Lock()
+		b.db.Log = append(b.db.Log, Rec{true, nil})
+		b.db.mu.Unlock()
+	}
 	ib := b.db.Inner.NewBatch()
 	for _, o := range b.ops {
 		if o.Del {
